@@ -16,6 +16,17 @@ watchdog covers loops inside C code).  Counted per call: all line events in pyat
 the number of times the decoder's own loop head is reached (`while` line located through the
 AST of the function under test) resp. the number of `_parse` frames.
 
+Calls that hand a network-controlled *string* to C code (regular expressions, `int()`, codecs) cannot be
+bounded by a line budget or a Python signal handler: the per-service discovery pipeline (`handle_response`
+-> protocol handler, `discover` -> device_info extractors + `service_info`, `get_unique_id`) for every TXT
+key the protocol modules read, the string parsers (`_get_flags`, `parse_features`, `lookup_version`,
+`lookup_os`, `parse_request`, `parse_response`, IDNA labels) and every whole-scan isolation run are
+therefore executed in a child process (`python -m harness.c05 --child`) under a wall-clock budget that
+grows linearly with the input size; a child that does not answer is killed and that is the observation.
+Hostile strings = near-matches (repeats pumped 1/6/20/40/60 times, failing suffix / infix) of every regular
+expression that `tools/gen/c05.py` extracts from the tree under test, plus long digit runs and repeated
+separators.
+
 * correspondence: outcome class (value / exception class), stream position or bytes left, and
   the loop-iteration count are compared with the Lean driver on the same bytes.
 * direct oracle (model-independent): the call returns or raises an ordinary exception
@@ -50,7 +61,8 @@ RULE = ("per decoder: every byte string up to length k over the decoder's dispat
         "(length bytes, header counts, compression pointers incl. self / forward / cyclic, truncation, "
         "nesting depth); discovery: 1..4 well-formed devices x one hostile host (garbage datagrams, pointer "
         "loops, TXT values on which handlers / device_info / service_info raise) x multicast and unicast "
-        "scanner. non-trivial = the decoder raised, or looped more than once, or a hostile host was present; "
+        "scanner; every TXT key read by a protocol module x near-match strings of every extracted regex (in a child "
+        "process, wall-clock budget). non-trivial = the decoder raised, or looped more than once, or a hostile host was present; "
         "distinct = (decoder, bytes) resp. (mode, devices, hostile payload, order)")
 ASSUMPTIONS = [
     "a datagram transport may stop delivering once an exception escapes datagram_received (asyncio proactor "
@@ -61,6 +73,8 @@ ASSUMPTIONS = [
     "direct oracle runs the real ones and only requires return-or-ordinary-exception within the budget",
     "HTTP header values are ASCII and Content-Length is digits, '-digits' or not a number (int() accepts more)",
     "RecursionError is an ordinary exception (read_tlv, DMAP _parse, OPACK _unpack recurse per item)",
+    "wall-clock budget of a child call: 6 s + 20 ms per item + 0.2 ms per input byte (normal: milliseconds); "
+    "CPython's re does no more work than the exhaustive backtracking search bounded in Props/C05Regex",
 ]
 TRUSTED = ["harness/c05.py line-event tracer (sys.settrace) and AST location of loop heads",
            "harness/c12.py fakes and record rendering (reused for the discovery runs)"]
@@ -1086,6 +1100,7 @@ def run_strings(ctx, child):
     keys = gen.txt_keys()
     ctx.notes["txt_keys"] = {k.replace("pyatv.protocols.", ""): v for k, v in keys.items()}
     stuck = 0
+    culprits = []          # (protocol module, key, text) on which the per-service pipeline did not return
 
     def judge(sig_base, case_of, answers, texts, res, required):
         nonlocal stuck
@@ -1098,6 +1113,8 @@ def run_strings(ctx, child):
                 if r1["status"] != "ok":
                     culprit = t
                     break
+            if culprit is not None:
+                culprits.append((sig_base, culprit))
             ctx.fail(sig_base + ":does-not-finish", case_of(culprit if culprit is not None else texts[0]),
                      "no answer within %.1f s (child killed)" % res["budget_s"], required,
                      "a single call on a network-controlled string did not return within a wall-clock budget proportional "
@@ -1151,7 +1168,12 @@ def run_strings(ctx, child):
         res = child.call({"op": "fn", "fn": fn, "texts": texts}, budget_for(len(texts), sum(map(len, texts))))
         judge("strings:fn:%s" % fn, lambda t, fn=fn: {"fn": fn, "text": t}, answers, texts, res,
               "returns or raises an ordinary exception within the budget")
-    return strings
+    found = []
+    for sig_base, text in culprits:
+        parts = sig_base.split(":")
+        if len(parts) == 3 and parts[1] in SERVICE_TYPES.values():
+            found.append(([p_ for p_, t_ in SERVICE_TYPES.items() if t_ == parts[1]][0], parts[2], text))
+    return strings, found
 
 
 # ---------------------------------------------------------------------------------------------
@@ -1289,7 +1311,7 @@ def snapshot(res, only=None):
     return sorted(out, key=repr)
 
 
-def string_payloads(ctx, rng, strings):
+def string_payloads(ctx, rng, strings, culprits=()):
     """hostile hosts whose announcement is well-formed DNS with one adversarial TXT value"""
     from harness import c12
     from tools.gen import c05 as gen
@@ -1301,9 +1323,11 @@ def string_payloads(ctx, rng, strings):
     combos = [(proto, key) for proto in types for key in keys.get(proto, [])]
     long_ = [t for t in strings if 20 <= len(t.encode("utf-8")) <= 200 and "\x00" not in t] or ["1" * 50]
     out = []
+    picks = [(p_, k_, t_) for p_, k_, t_ in culprits if p_ in types and len(t_.encode("utf-8")) <= 240][:2]
     for i in range(ctx.scale(10, 40)):
         proto, key = rng.choice(combos)
-        text = rng.choice(long_)
+        picks.append((proto, key, rng.choice(long_)))
+    for i, (proto, key, text) in enumerate(picks):
         t, inst = types[proto]
         base = [(k, v) for k, v in BASE_PROPS[SERVICE_TYPES[proto]].items() if k.lower() != key.lower()]
         recs = c12.svc_records(dev, {"type": t, "inst": inst, "port": 7100, "props": base + [(key, text)]})
@@ -1311,9 +1335,9 @@ def string_payloads(ctx, rng, strings):
     return out
 
 
-def run_discovery(ctx, child, strings):
+def run_discovery(ctx, child, strings, culprits=()):
     rng = ctx.rng.fork("discovery")
-    payloads = hostile_payloads(rng) + string_payloads(ctx, rng.fork("strings"), strings)
+    payloads = string_payloads(ctx, rng.fork("strings"), strings, culprits) + hostile_payloads(rng)
     lines, pending = [], []
     stuck = 0
     for mode in ("m", "u"):
@@ -1395,8 +1419,8 @@ def run(ctx):
         signal.signal(signal.SIGALRM, old)
     child = Child()
     try:
-        strings = run_strings(ctx, child)
-        run_discovery(ctx, child, strings)
+        strings, culprits = run_strings(ctx, child)
+        run_discovery(ctx, child, strings, culprits)
     finally:
         child.close()
 
